@@ -71,8 +71,8 @@ Qed.
 Lemma is_boundary_shift cl a b p1 r1 :
   split_cl cl a = Some (p1, r1) -> 0 <= b -> is_boundary cl (a + b) -> is_boundary r1 b.
 Proof.
-  intros H Hb (pre & post & Hs). rewrite (split_cl_add _ _ H Hb) in Hs.
-  destruct (split_cl r1 b) as [[p2 r2]|]; [|discriminate]. exists p2, r2. reflexivity.
+  intros H Hb (pre & post & Hs). rewrite (split_cl_add _ _ b _ _ H Hb) in Hs.
+  destruct (split_cl r1 b) as [[p2 r2]|] eqn:E2; [|discriminate]. exists p2, r2. exact E2.
 Qed.
 
 (* if every offset 0..g is a boundary, the first g clusters are single bytes *)
@@ -90,10 +90,10 @@ Proof.
     assert (c = 1) by lia. subst c.
     assert (Hs1 : split_cl (1 :: r) 1 = Some ([1], r)) by (simpl; rewrite split_cl_0; reflexivity).
     destruct (IH r) as (r' & Hr').
-    { intros x Hx. apply (is_boundary_shift (cl := 1 :: r) (a := 1) (b := x) Hs1); [lia|].
+    { intros x Hx. apply (is_boundary_shift (1 :: r) 1 x [1] r Hs1); [lia|].
       apply H. lia. }
     exists r'. replace (Z.of_nat (S k)) with (1 + Z.of_nat k) by lia.
-    rewrite (split_cl_add _ _ Hs1) by lia. rewrite Hr'. reflexivity.
+    rewrite (split_cl_add _ _ (Z.of_nat k) _ _ Hs1) by lia. rewrite Hr'. reflexivity.
 Qed.
 
 (* ---- count_clusters -------------------------------------------------------------- *)
@@ -104,9 +104,9 @@ Lemma count_app nl : forall cl1 l c b cl2, Forall (fun n => 0 < n) cl1 ->
   count_clusters nl l1 c1 (skipn (Z.to_nat (sumZ cl1)) b) cl2.
 Proof.
   induction cl1 as [|n cl1 IH]; intros l c b cl2 Hf; [reflexivity|].
-  inversion Hf as [|? ? Hn Hf']; subst. pose proof (sumZ_nonneg Hf') as Hs.
-  assert (E : forall l' c', skipn (Z.to_nat (sumZ cl1)) (skipn (Z.to_nat n) b) = skipn (Z.to_nat (sumZ (n :: cl1))) b).
-  { intros. rewrite skipn_skipn'. f_equal. unfold sumZ in *. simpl. lia. }
+  inversion Hf as [|? ? Hn Hf']; subst. pose proof (sumZ_nonneg _ Hf') as Hs.
+  assert (E : skipn (Z.to_nat (sumZ cl1)) (skipn (Z.to_nat n) b) = skipn (Z.to_nat (sumZ (n :: cl1))) b).
+  { rewrite skipn_skipn'. f_equal. unfold sumZ in *. simpl. lia. }
   cbn [app count_clusters]. destruct (nl (firstn (Z.to_nat n) b)); rewrite IH by assumption;
     destruct (count_clusters nl _ _ (skipn (Z.to_nat n) b) cl1) as [l1 c1]; rewrite E; auto.
 Qed.
@@ -116,7 +116,7 @@ Lemma count_prefix nl : forall cl l c b x, Forall (fun n => 0 < n) cl -> sumZ cl
   count_clusters nl l c (b ++ x) cl = count_clusters nl l c b cl.
 Proof.
   induction cl as [|n cl IH]; intros l c b x Hf Hs; [reflexivity|].
-  inversion Hf as [|? ? Hn Hf']; subst. pose proof (sumZ_nonneg Hf') as Hs'.
+  inversion Hf as [|? ? Hn Hf']; subst. pose proof (sumZ_nonneg _ Hf') as Hs'.
   assert (Hle : (Z.to_nat n <= length b)%nat) by (unfold sumZ, zlen in *; simpl in Hs; lia).
   cbn [count_clusters].
   assert (E1 : firstn (Z.to_nat n) (b ++ x) = firstn (Z.to_nat n) b).
@@ -141,3 +141,140 @@ Proof.
     cbn [app firstn skipn]. rewrite (Hb _ Ha). rewrite IH by assumption.
     f_equal. unfold zlen. simpl length. lia.
 Qed.
+
+(* ---- emitToken computes the canonical position ------------------------------------ *)
+
+Lemma skipn_app_exact {A} (a b : list A) n : n = length a -> skipn n (a ++ b) = b.
+Proof. intros ->. rewrite skipn_app, skipn_all, Nat.sub_diag. reflexivity. Qed.
+
+Lemma Forall_repeat_1 k : Forall (fun n => 0 < n) (repeat 1 k).
+Proof. induction k; simpl; constructor; auto; lia. Qed.
+
+Lemma sumZ_repeat_1 k : sumZ (repeat 1 k) = Z.of_nat k.
+Proof. induction k as [|k IH]; [reflexivity|]. unfold sumZ in *. cbn [repeat fold_right]. rewrite IH. lia. Qed.
+
+Section Faithful.
+Variable blank : Z -> bool.
+Hypothesis blank_not_nl : forall c, blank c = true -> is_nl_lexer [c] = false.
+
+Definition blank_gap (g : list Z) : Prop := forallb blank g = true.
+
+(* "token boundaries fall on grapheme-cluster boundaries": every byte offset
+   from the end of the previous token to the start of the token (the gap bytes
+   and the token start) and the token's end are cluster boundaries of gcs *)
+Fixpoint aligned (gcs : list Z) (lo : Z) (toks : list rtok) : Prop :=
+  match toks with
+  | [] => True
+  | t :: r =>
+      (forall off, lo <= off <= k_s t -> is_boundary gcs off) /\
+      is_boundary gcs (k_e t) /\
+      aligned gcs (k_e t) r
+  end.
+
+Definition tok_faithful (start : pos) (data gcs : list Z) (t : rtok) (tk : token) : Prop :=
+  t_ty tk = k_ty t /\ t_bytes tk = k_bytes t /\
+  pos_at is_nl_lexer start data gcs (p_byte start + k_s t) = Some (r_start (t_range tk)) /\
+  pos_at is_nl_lexer start data gcs (p_byte start + k_e t) = Some (r_end (t_range tk)).
+
+Lemma emit_all_faithful (start : pos) (data gcs : list Z) :
+  forall toks a rest lo dpre drest pre l c,
+  data = dpre ++ drest -> zlen dpre = lo ->
+  split_cl gcs lo = Some (pre, rest) ->
+  count_clusters is_nl_lexer (p_line start) (p_col start) data pre = (l, c) ->
+  a = mkAcc (mkPos l c (p_byte start + lo)) (p_byte start) ->
+  tiled blank_gap lo drest toks -> aligned gcs lo toks ->
+  exists out, emit_all_gcs a rest toks = Some out /\
+              Forall2 (tok_faithful start data gcs) toks out.
+Proof.
+  induction toks as [|t r IH]; intros a rest lo dpre drest pre l c Hdata Hlo Hsp Hcnt Ha Ht Hal.
+  - exists []. split; [reflexivity|constructor].
+  - destruct Ht as (g & rest' & Hd & Hg & Hs & He & Ht).
+    destruct Hal as (Hb1 & Hb2 & Hal).
+    set (sb := p_byte start) in *.
+    set (G := zlen g) in *. set (B := zlen (k_bytes t)) in *.
+    assert (HG : G = Z.of_nat (length g)) by reflexivity.
+    assert (HG0 : 0 <= G) by (unfold G; apply zlen_nonneg).
+    assert (HB0 : 0 <= B) by (unfold B; apply zlen_nonneg).
+    pose proof (split_cl_spec _ _ _ _ Hsp) as (Hgcs & Hsum & Hfpre).
+    assert (Hlo0 : 0 <= lo) by (rewrite <- Hlo; apply zlen_nonneg).
+    (* the gap: one-byte clusters *)
+    destruct (split_cl_ones (length g) rest) as (r1 & Hones).
+    { intros x Hx. apply (is_boundary_shift gcs lo x pre rest Hsp); [lia|]. apply Hb1. lia. }
+    rewrite <- HG in Hones.
+    assert (Hsp1 : split_cl gcs (lo + G) = Some (pre ++ repeat 1 (length g), r1)).
+    { rewrite (split_cl_add gcs lo G pre rest Hsp HG0), Hones. reflexivity. }
+    (* the token *)
+    assert (Hbt : is_boundary r1 B).
+    { apply (is_boundary_shift gcs (lo + G) B _ r1 Hsp1 HB0).
+      replace (lo + G + B) with (k_e t) by lia. exact Hb2. }
+    destruct Hbt as (cl & r2 & Hcl).
+    assert (Hsp2 : split_cl gcs (lo + G + B) = Some ((pre ++ repeat 1 (length g)) ++ cl, r2)).
+    { rewrite (split_cl_add gcs (lo + G) B _ r1 Hsp1 HB0), Hcl. reflexivity. }
+    pose proof (split_cl_spec _ _ _ _ Hsp1) as (_ & Hsum1 & Hf1).
+    pose proof (split_cl_spec _ _ _ _ Hcl) as (_ & Hsumcl & Hfcl).
+    (* the data at the three offsets *)
+    assert (Hsk0 : skipn (Z.to_nat (sumZ pre)) data = g ++ k_bytes t ++ rest').
+    { rewrite Hdata, Hd. apply skipn_app_exact. unfold zlen in Hlo. lia. }
+    assert (Hsk1 : skipn (Z.to_nat (sumZ (pre ++ repeat 1 (length g)))) data = k_bytes t ++ rest').
+    { rewrite Hdata, Hd, app_assoc. apply skipn_app_exact. rewrite app_length.
+      unfold zlen in Hlo. lia. }
+    (* canonical counts *)
+    assert (Hcnt1 : count_clusters is_nl_lexer (p_line start) (p_col start) data
+                      (pre ++ repeat 1 (length g)) = (l, c + G)).
+    { rewrite (count_app _ _ _ _ _ _ Hfpre), Hcnt, Hsk0.
+      apply (count_ones is_nl_lexer blank blank_not_nl). exact Hg. }
+    destruct (count_clusters is_nl_lexer l (c + G) (k_bytes t) cl) as [l2 c2] eqn:Hcnt2.
+    assert (Hcnt3 : count_clusters is_nl_lexer (p_line start) (p_col start) data
+                      ((pre ++ repeat 1 (length g)) ++ cl) = (l2, c2)).
+    { rewrite (count_app _ _ _ _ _ _ Hf1), Hcnt1, Hsk1.
+      rewrite count_prefix; [exact Hcnt2|exact Hfcl|fold B; lia]. }
+    (* run emitToken *)
+    assert (Hemit : emit_token_gcs a rest t =
+                    Some (mkToken (k_ty t) (k_bytes t)
+                            (mkRange (mkPos l (c + G) (sb + k_s t)) (mkPos l2 c2 (sb + k_e t))),
+                          mkAcc (mkPos l2 c2 (sb + k_e t)) sb, r2)).
+    { unfold emit_token_gcs. rewrite Ha. cbn [a_pos a_start_byte p_byte].
+      replace (k_s t + sb - (sb + lo)) with G by lia. rewrite Hones.
+      replace (k_e t - k_s t) with B by lia. rewrite Hcl.
+      unfold emit_token_cl. cbn [a_pos a_start_byte p_byte p_line p_col].
+      replace (k_s t + sb - (sb + lo)) with G by lia. rewrite Hcnt2.
+      replace (k_s t + sb) with (sb + k_s t) by lia.
+      replace (k_e t + sb) with (sb + k_e t) by lia. reflexivity. }
+    destruct (IH (mkAcc (mkPos l2 c2 (sb + k_e t)) sb) r2 (k_e t) (dpre ++ g ++ k_bytes t) rest'
+                 ((pre ++ repeat 1 (length g)) ++ cl) l2 c2) as (out & Hout & Hfa); auto.
+    { rewrite Hdata, Hd, <- !app_assoc. reflexivity. }
+    { rewrite !zlen_app. fold G B. lia. }
+    { replace (k_e t) with (lo + G + B) by lia. exact Hsp2. }
+    exists (mkToken (k_ty t) (k_bytes t)
+              (mkRange (mkPos l (c + G) (sb + k_s t)) (mkPos l2 c2 (sb + k_e t))) :: out).
+    split.
+    + cbn [emit_all_gcs]. rewrite Hemit, Hout. reflexivity.
+    + constructor; [|exact Hfa]. unfold tok_faithful. cbn [t_ty t_bytes t_range r_start r_end].
+      repeat split.
+      * unfold pos_at. fold sb. replace (sb + k_s t - sb) with (lo + G) by lia.
+        rewrite Hsp1, Hcnt1. reflexivity.
+      * unfold pos_at. fold sb. replace (sb + k_e t - sb) with (lo + G + B) by lia.
+        rewrite Hsp2, Hcnt3. reflexivity.
+Qed.
+
+(* THE POSITION THEOREM. If the tokens tile data with blank gaps (which the
+   scanner guarantees) and the token boundaries and gap bytes fall on cluster
+   boundaries of gcs, then emitToken succeeds on every token and every Start
+   and End it computes is pos_at of its byte offset: the position obtained by
+   counting "\n" / "\r\n" clusters and grapheme clusters from the start
+   position. Any start position, any cluster list. *)
+Theorem positions_faithful : forall (start : pos) (data gcs : list Z) (toks : list rtok),
+  tiled blank_gap 0 data toks ->
+  aligned gcs 0 toks ->
+  exists out,
+    emit_all_gcs (mkAcc start (p_byte start)) gcs toks = Some out /\
+    Forall2 (tok_faithful start data gcs) toks out.
+Proof.
+  intros start data gcs toks Ht Hal.
+  apply (emit_all_faithful start data gcs toks _ gcs 0 [] data [] (p_line start) (p_col start));
+    auto.
+  - apply split_cl_0.
+  - destruct start as [sl sc sb0]; cbn [p_line p_col p_byte]. rewrite Z.add_0_r. reflexivity.
+Qed.
+
+End Faithful.
